@@ -429,3 +429,45 @@ M("C12", "dec-shared-buffer-emptied-in-keyerror-handler", F, "", "", "C12.R6", e
               "        bstring = token.value[1:-1]\n        buffer = _SCRATCH\n        it = StringIterator(bstring)\n        try:\n"
               + "".join("    " + ln + "\n" for ln in LOOP.splitlines()) + "        except KeyError:\n            buffer.clear()\n            raise\n"
               "        data = bytes(buffer)\n        buffer.clear()\n        return data\n")])
+
+# ---------------------------------------------------------------------------------------------- wave 8
+# R2: act-then-validate.  next(n) is a slice of the buffer (read off StringIterator.next), so a test of the length of what was read IS
+# the availability check, made after the fact (lemma L15): `len(digits) < n`, `!= n`, `== n ... else raise`, mirrored, on the joined text
+T("C12", "twin-dec-read-then-validate-length", F, "", "", edits=[
+    (F, U_BRANCH, "                    digits = it.next(4)\n                    if len(digits) < 4:\n                        raise ValueError(\"not enough remaining chars for \\\\uXXXX\")\n"
+                  "                    hexstr = \"\".join(digits[2:])\n                    buffer.append(int(hexstr, 16))\n"),
+    (F, X_BRANCH, "                    digits = it.next(2)\n                    if len(digits) < 2:\n                        raise ValueError(\"not enough remaining chars for \\\\xXX\")\n"
+                  "                    hexstr = \"\".join(digits)\n                    buffer.append(int(hexstr, 16))\n")])
+T("C12", "twin-dec-read-then-validate-neq-and-else", F, "", "", edits=[
+    (F, U_BRANCH, "                    digits = it.next(4)\n                    if len(digits) == 4:\n                        buffer.append(int(\"\".join(digits[2:]), 16))\n"
+                  "                    else:\n                        raise ValueError(\"not enough remaining chars for \\\\uXXXX\")\n"),
+    (F, X_BRANCH, "                    hexstr = \"\".join(it.next(2))\n                    if 2 != len(hexstr):\n                        raise ValueError(\"not enough remaining chars for \\\\xXX\")\n"
+                  "                    buffer.append(int(hexstr, 16))\n")])
+T("C12", "twin-dec-read-then-validate-mirrored", F, X_BRANCH,
+  "                    pair = it.next(2)\n                    if 2 > len(pair):\n                        raise ValueError(\"not enough remaining chars for \\\\xXX\")\n"
+  "                    buffer.append(int(\"\".join(pair), 16))\n")
+# ... but the validation must cover everything that was read: "not empty" / "at least one" lets a one-digit escape through
+M("C12", "dec-read-then-validate-nonempty-only", F, X_BRANCH,
+  "                    digits = it.next(2)\n                    if not digits:\n                        raise ValueError(\"not enough remaining chars for \\\\xXX\")\n"
+  "                    buffer.append(int(\"\".join(digits), 16))\n", "C12.R2")
+M("C12", "dec-read-then-validate-too-few", F, U_BRANCH,
+  "                    digits = it.next(4)\n                    if len(digits) < 3:\n                        raise ValueError(\"not enough remaining chars for \\\\uXXXX\")\n"
+  "                    buffer.append(int(\"\".join(digits[2:]), 16))\n", "C12.R2")
+M("C12", "dec-read-then-validate-demands-too-much", F, X_BRANCH,
+  "                    digits = it.next(2)\n                    if len(digits) < 2 or not it.has_next():\n                        raise ValueError(\"not enough remaining chars for \\\\xXX\")\n"
+  "                    buffer.append(int(\"\".join(digits), 16))\n", "C12.R2")
+
+# R1: the encoder decides by a look at the data (length / first / last character of the text) whether it quotes and escapes: a path that
+# returns the text without delimiters is violated as soon as a value composed of the compared constants takes it
+STR_HEAD = "    if isinstance(value, str):\n"
+M("C12", "enc-braces-taken-as-already-formatted", F, STR_HEAD, STR_HEAD + "        if value.startswith(\"{\") and value.endswith(\"}\"):\n            return value\n", "C12.R1")
+M("C12", "enc-leading-quote-taken-as-quoted", F, STR_HEAD, STR_HEAD + "        if len(value) > 1 and value[:1] == '\"':\n            return value\n", "C12.R1")
+# a constant returned for a special shape / a shape test that only picks between two correct ways: never violated
+T("C12", "twin-enc-undecided-empty-value-constant", F, STR_HEAD, STR_HEAD + "        if len(value) == 0:\n            return '\"\"'\n")
+T("C12", "twin-enc-shape-test-both-branches-escape", F, QREP, "        if value.startswith('\"') or len(value) > 64:\n            value = value.replace('\"', '\\\\\"')\n        else:\n" + "    " + QREP)
+
+# R5: whatever is returned for a STRING token before the loop is bytes (a str never equals the encoded bytes)
+M("C12", "dec-fast-path-returns-text", F, FAST, FAST + "        if \"\\\\\" not in bstring:\n            return bstring\n", "C12.R5")
+M("C12", "dec-empty-literal-returns-empty-str", F, FAST, FAST + "        if bstring == \"\":\n            return \"\"\n", "C12.R5")
+T("C12", "twin-dec-empty-literal-compared-early", F, FAST, FAST + "        if bstring == \"\":\n            return bytes()\n")
+
